@@ -1035,8 +1035,13 @@ void World::corrupt_blob(const Step& s, int ti)
     if (ti >= 0 && (size_t)ti < tracks.size() && tracks[ti].h)
     {
         auto& t = *tracks[ti].h;
+        // a state with a damaged cell is a reachable state too: reading it must not write (C16)
+        check_purity_begin();
         rd("snapshot", [&] { (void)t.snapshot(); });
         (void)observe_track(t);  // every getter, guarded; foreign exceptions are reported there
+        rd("snapshot", [&] { (void)t.snapshot(); });
+        check_purity_end("read-damaged");
+        probes.hit("purity_checked_on_damaged");
         if (r.chance(1, 3))
         {
             // read-modify-write on damaged data must be safe too
@@ -1050,12 +1055,14 @@ void World::corrupt_blob(const Step& s, int ti)
     if (v2 && tstate && tstate->lib)
     {
         auto tt = tstate->lib->track();
+        check_purity_begin();
         rd("track_table::get", [&] { (void)tt.get(id); });
         rd("get_track_data", [&] { (void)tt.get_track_data(id); });
         rd("get_overview_waveform_data", [&] { (void)tt.get_overview_waveform_data(id); });
         rd("get_beat_data", [&] { (void)tt.get_beat_data(id); });
         rd("get_quick_cues", [&] { (void)tt.get_quick_cues(id); });
         rd("get_loops", [&] { (void)tt.get_loops(id); });
+        check_purity_end("table-read-damaged");
     }
     if (v2)
     {
@@ -1217,9 +1224,14 @@ void World::corrupt_grid(const Step& s, int ti)
         {
             if (!d.run(upd, {HDb::Bind::Blob(cell), HDb::Bind::Int(id)}))
                 continue;
+            // reading the damaged cell must not write (C16): counters only, the image is hashed in the sampled profile
+            const uint64_t w0 = g_disk.lib_writes + g_disk.lib_truncates + g_disk.lib_deletes;
+            const int64_t c0 = g_taps.total_changes();
             rd([&] { (void)t.snapshot(); });
             if (n % 24 == 0)
                 (void)observe_track(t);
+            if (g_disk.lib_writes + g_disk.lib_truncates + g_disk.lib_deletes != w0 || g_taps.total_changes() != c0)
+                report("C16", "C16|read-damaged|" + fam() + "|disk-write", "reading a track whose stored " + std::string(col) + " cell is damaged wrote to the database");
         }
         if (stop)
             break;
